@@ -81,6 +81,11 @@ impl Out {
         f.write_all(line.as_bytes()).unwrap();
         f.write_all(b"\n").unwrap();
     }
+    /// Records the case that is about to be executed (unbuffered).  If the process dies inside the implementation
+    /// (abort, allocation failure, stack overflow) the check reports this case as the failing input.
+    pub fn inflight(&self, case_line: &str) {
+        let _ = std::fs::write(format!("{}/inflight.txt", self.dir), case_line);
+    }
     pub fn count(&mut self, key: &str) {
         *self.stats.entry(key.to_string()).or_insert(0) += 1;
     }
@@ -114,6 +119,7 @@ impl Out {
         }
         s.push_str("\n ]\n}\n");
         std::fs::write(format!("{}/stats.json", self.dir), s).unwrap();
+        let _ = std::fs::remove_file(format!("{}/inflight.txt", self.dir));
     }
 }
 
